@@ -208,6 +208,140 @@ def item_loader_consts(repo):
     for name in ("_LEADING_SLASH",):
         v = _find_assign(tree, name)
         out[name] = ast.unparse(v[-1]) if v else None
+    # FileSystemLoader dataclass field default: `ignore_protocol: str = "file:"` (C17)
+    for node in ast.walk(tree):
+        if isinstance(node, ast.ClassDef) and node.name == "FileSystemLoader":
+            for st in node.body:
+                if (isinstance(st, ast.AnnAssign) and isinstance(st.target, ast.Name)
+                        and st.target.id == "ignore_protocol"):
+                    out["ignore_protocol"] = ast.literal_eval(st.value)
+    if not isinstance(out.get("ignore_protocol"), str) or out["_LEADING_SLASH"] is None:
+        raise ValueError("loader constants not found")
+    return out
+
+
+def item_include_directive(repo):
+    """IncludeReader.read: the directive name compared with `value.name`; make_loader: the key under which the
+    file-system loader is registered in the ProtocolLoader and the default protocol (C16)"""
+    tree = _parse(repo, "pdtable/io/load/_loaders.py")
+    name = None
+    for node in ast.walk(tree):
+        if isinstance(node, ast.ClassDef) and node.name == "IncludeReader":
+            for cmp in ast.walk(node):
+                if (isinstance(cmp, ast.Compare) and ast.unparse(cmp.left) == "value.name"
+                        and len(cmp.ops) == 1 and isinstance(cmp.ops[0], ast.Eq)):
+                    name = ast.literal_eval(cmp.comparators[0])
+    default = file_key = None
+    for n in ast.walk(_find_func(tree, "make_loader")):
+        if isinstance(n, ast.Call) and ast.unparse(n.func) == "ProtocolLoader":
+            for kw in n.keywords:
+                if kw.arg == "default_protocol":
+                    default = ast.literal_eval(kw.value)
+                if kw.arg == "protocol_handlers" and isinstance(kw.value, ast.Dict) and kw.value.keys[0] is not None:
+                    file_key = ast.literal_eval(kw.value.keys[0])
+    if not (isinstance(name, str) and isinstance(default, str) and isinstance(file_key, str)):
+        raise ValueError("include directive name / protocol defaults not found")
+    return {"name": name, "default_protocol": default, "file_key": file_key}
+
+
+# C19 — with-frame table of the reader / writer functions
+_C19_FUNCS = [
+    ("pdtable/io/csv.py", None, "read_csv"),
+    ("pdtable/io/csv.py", None, "write_csv"),
+    ("pdtable/io/excel.py", None, "read_excel"),
+    ("pdtable/io/excel.py", None, "write_excel"),
+    ("pdtable/io/_excel_openpyxl.py", None, "read_sheets"),
+    ("pdtable/io/_excel_openpyxl.py", None, "write_excel_openpyxl"),
+    ("pdtable/io/load/_loaders.py", "FileReader", "read"),
+    ("pdtable/io/load/_loaders.py", "IncludeReader", "read"),
+    ("pdtable/io/load/_orchestrators.py", None, "queued_load"),
+    ("pdtable/io/load/_orchestrators.py", None, "load_files"),
+]
+_C19_OPENERS = {"open", "load_workbook", "ZipFile", "fdopen", "TemporaryFile", "NamedTemporaryFile"}
+_C19_WRITE_CALLS = {"_table_to_csv", "_append_table_to_openpyxl_worksheet", "save", "write_excel_func"}
+
+
+def _c19_callee(call):
+    f = call.func
+    return f.attr if isinstance(f, ast.Attribute) else (f.id if isinstance(f, ast.Name) else ast.unparse(f))
+
+
+def _c19_scan(fn):
+    """(points, bare_opens, for_calls, close_calls) of one function body; nested defs/classes/lambdas skipped.
+    points: (what, [context expressions of the enclosing `with` items, outermost first])"""
+    points, bare, fors, closes = [], [], [], []
+
+    def expr(node, ctx, in_item):
+        # walk an expression tree in source order
+        if isinstance(node, (ast.Lambda, ast.FunctionDef, ast.AsyncFunctionDef, ast.ClassDef)):
+            return
+        if isinstance(node, ast.YieldFrom):
+            v = node.value
+            points.append(["yield from " + (ast.unparse(v.func) if isinstance(v, ast.Call) else ast.unparse(v)), list(ctx)])
+        elif isinstance(node, ast.Yield):
+            points.append(["yield", list(ctx)])
+        elif isinstance(node, ast.Call):
+            name = _c19_callee(node)
+            if name in _C19_OPENERS and not in_item:
+                bare.append(ast.unparse(node))
+            if name == "close" and isinstance(node.func, ast.Attribute):
+                closes.append(ast.unparse(node))
+            if name in _C19_WRITE_CALLS:
+                points.append(["call " + ast.unparse(node.func), list(ctx)])
+        for ch in ast.iter_child_nodes(node):
+            expr(ch, ctx, in_item)
+
+    def stmts(body, ctx):
+        for st in body:
+            if isinstance(st, (ast.FunctionDef, ast.AsyncFunctionDef, ast.ClassDef)):
+                continue
+            if isinstance(st, (ast.With, ast.AsyncWith)):
+                inner = list(ctx)
+                for it in st.items:
+                    expr(it.context_expr, inner, True)
+                    inner = inner + [ast.unparse(it.context_expr)]
+                stmts(st.body, inner)
+            elif isinstance(st, (ast.For, ast.AsyncFor)):
+                if isinstance(st.iter, ast.Call):
+                    fors.append(ast.unparse(st.iter.func))
+                expr(st.iter, ctx, False)
+                stmts(st.body, ctx)
+                stmts(st.orelse, ctx)
+            elif isinstance(st, ast.While):
+                expr(st.test, ctx, False)
+                stmts(st.body, ctx)
+                stmts(st.orelse, ctx)
+            elif isinstance(st, ast.If):
+                expr(st.test, ctx, False)
+                stmts(st.body, ctx)
+                stmts(st.orelse, ctx)
+            elif isinstance(st, ast.Try) or st.__class__.__name__ == "TryStar":
+                stmts(st.body, ctx)
+                for h in st.handlers:
+                    stmts(h.body, ctx)
+                stmts(st.orelse, ctx)
+                stmts(st.finalbody, ctx)
+            elif isinstance(st, ast.Match):
+                expr(st.subject, ctx, False)
+                for c in st.cases:
+                    stmts(c.body, ctx)
+            else:
+                expr(st, ctx, False)
+
+    stmts(fn.body, [])
+    return points, bare, fors, closes
+
+
+def item_with_frames(repo):
+    out = []
+    for rel, cls, name in _C19_FUNCS:
+        tree = _parse(repo, rel)
+        scope = tree
+        if cls is not None:
+            scope = next(n for n in tree.body if isinstance(n, ast.ClassDef) and n.name == cls)
+        fn = next(n for n in scope.body if isinstance(n, (ast.FunctionDef, ast.AsyncFunctionDef)) and n.name == name)
+        points, bare, fors, closes = _c19_scan(fn)
+        out.append([(cls + "." if cls else "") + name, points, bare, fors, closes])
     return out
 
 
@@ -224,6 +358,8 @@ ITEMS = {
     "represent": item_na_rep,
     "bundle_name_regex": item_bundle_name_regex,
     "loader_consts": item_loader_consts,
+    "include_directive": item_include_directive,
+    "with_frames": item_with_frames,
 }
 
 ANCHORED = {
@@ -252,7 +388,9 @@ ANCHORED = {
     "pdtable/frame.py": ["_combine_tables", "__finalize__", "from_table_info",
                          "make_table_dataframe", "get_table_info", "add_column", "set_units"],
     "pdtable/io/load/_orchestrators.py": ["queued_load", "load_files"],
-    "pdtable/io/load/_loaders.py": ["_resolve_load_item_path", "make_loader"],
+    "pdtable/io/load/_loaders.py": ["_resolve_load_item_path", "make_loader", "read", "resolve"],
+    "pdtable/io/load/_tree.py": ["make_location_trees"],
+    "pdtable/table_origin.py": ["load_history", "make_location_block", "make_location_sheet"],
     "pdtable/io/excel.py": ["read_excel", "write_excel"],
     "pdtable/io/_excel_openpyxl.py": ["read_sheets", "write_excel_openpyxl",
                                       "_append_table_to_openpyxl_worksheet",
@@ -324,6 +462,24 @@ def render(vals) -> str:
     L.append(f"def sealant : List Char := {lean_str(vals['represent']['sealant'])}.toList")
     L.append(f"def sealantTest : String := {lean_str(vals['represent']['sealant_test'])}")
     L.append(f"def bundleNameRegex : String := {lean_str(vals['bundle_name_regex'])}")
+    L.append("/-- _loaders.py `_LEADING_SLASH` (source text) and the `FileSystemLoader.ignore_protocol` default (C17) -/")
+    L.append(f"def leadingSlashPattern : String := {lean_str(vals['loader_consts']['_LEADING_SLASH'])}")
+    L.append(f"def ignoreProtocol : List Char := {lean_str(vals['loader_consts']['ignore_protocol'])}.toList")
+    L.append("/-- _loaders.py IncludeReader: directive name that is consumed; make_loader: ProtocolLoader keys (C16) -/")
+    L.append(f"def includeDirective : List Char := {lean_str(vals['include_directive']['name'])}.toList")
+    L.append(f"def defaultProtocol : List Char := {lean_str(vals['include_directive']['default_protocol'])}.toList")
+    L.append(f"def fileProtocolKey : List Char := {lean_str(vals['include_directive']['file_key'])}.toList")
+    L.append("")
+    L.append("/-- C19: per reader/writer function (name, points, opener calls outside any `with` item, calls iterated by a")
+    L.append("    `for`, explicit `.close()` calls); a point is (yield / yield from f / call f, context expressions of the")
+    L.append("    enclosing `with` items, outermost first) -/")
+    L.append("def withFrames : List (String × List (String × List String) × List String × List String × List String) := [")
+    L.append(",\n".join(
+        "  (" + lean_str(fn) + ", [" + ", ".join(
+            "(" + lean_str(w) + ", [" + ", ".join(lean_str(c) for c in ctx) + "])" for w, ctx in pts)
+        + "], [" + ", ".join(lean_str(x) for x in bare) + "], [" + ", ".join(lean_str(x) for x in fors)
+        + "], [" + ", ".join(lean_str(x) for x in closes) + "])"
+        for fn, pts, bare, fors, closes in vals["with_frames"]) + "]")
     L.append("")
     L.append("end Pdt.Gen")
     return "\n".join(L) + "\n"
